@@ -50,7 +50,7 @@ CHECKS.update({
         category="exploration",
         text=("LIFE histories in generated projects (1..4 files x 1..4 search patterns, shared lines, all line-ending regimes, "
               "globs and repeated entries, every config syntax); after each successful real update a template walker checks "
-              "every slot against the reference rendering of the announced version."),
+              "every slot against the reference rendering of the announced version. BADCONFIG: a setup.cfg that lists one file twice is refused, or else every occurrence of every listed pattern is updated."),
         design_ref="DESIGN.md 6.3", note="Trusted: template model, ref.pattern renderer. Value of {pep440_version} slots is judged under C15.",
         technique=TECH + "seeded invocation histories over generated project layouts, template model of every occurrence slot"),
     "C04": dict(
@@ -58,7 +58,9 @@ CHECKS.update({
         text=("As C03 with the byte-content generator (non-ASCII, BOM, control characters incl. VT/FF/NEL/LS/PS/NUL, regex "
               "metacharacters as content, four line-ending regimes, optional final newline, unconfigured files): every byte "
               "outside the matched spans must be preserved; a real child interpreter under LC_ALL=C with UTF-8 mode off must "
-              "produce identical bytes."),
+              "produce identical bytes. WRITEFAULT: opening one configured file for writing fails (ENOSPC/EACCES/...); COMMITFAIL: real "
+              "git's own pre-commit hook refuses the release commit while an unconfigured tracked file has uncommitted changes - "
+              "that file keeps its bytes whatever bumpver does about the failure."),
         design_ref="DESIGN.md 6.4", note="Trusted: template model. Invalid UTF-8 input is not generated.",
         technique=TECH + "seeded histories over generated byte contents x line-ending regimes x process locale, byte-exact template oracle"),
     "C05": dict(
@@ -73,7 +75,7 @@ CHECKS.update({
         category="exploration",
         text=("The simulated clock visits consecutive days and the real CLI renders each; thorough enumerates every consecutive "
               "day pair 2001..2099 for all 51 coherent year x sub-part patterns; every incoherent pairing must be refused by "
-              "test/update/show; bump leg with backward clock jumps."),
+              "test/update/show; bump leg with backward clock jumps. UNQUOTED: a TOML current_version written as a bare number is refused or read as written, never misread."),
         design_ref="DESIGN.md 6.14", note="Order oracle: vendored packaging.version. Week-53 days of WW/UU patterns are counted, not reported here (F8).",
         technique=TECH + "exhaustive sweep of the simulated clock per pattern, monotonicity under the reference order"),
     "C15": dict(
@@ -87,7 +89,7 @@ CHECKS.update({
         category="exploration",
         text=("Chains of real `bumpver test` invocations, each starting from the previous output: thorough covers all 111,110 "
               "start ids of 1..5 digits x 3 steps and 92 chains of 10,000 bumps across every digit-length expansion and up to "
-              "the all-nines maximum."),
+              "the all-nines maximum. UNQUOTED: a TOML current_version written as a bare number (2026.1100) is refused or read as written."),
         design_ref="DESIGN.md 6.17", note="lexid successor re-implemented from its README for the exact-successor check.",
         technique=TECH + "long seeded bump chains (histories), order oracles along the chain"),
 
@@ -133,7 +135,8 @@ CHECKS.update({
         text=("Adversarial commit/tag message templates (config TOML/INI and CLI incl. OLD/NEW) and file names cross the "
               "subprocess seam; each world is also run with plain control values and the recorded argv lists must be equal "
               "except for the one substituted element, and the paths the tool itself makes of the staging commands (its option "
-              "parsing, pathspec files on stdin) must be the configured ones; a real-git leg compares stored commit/tag objects."),
+              "parsing, pathspec files on stdin) must be the configured ones; a real-git leg compares stored commit/tag objects; "
+              "COMMITFAIL: after git refused the commit, the index differs from HEAD in configured paths only."),
         design_ref="DESIGN.md 6.12", note="Trusted: reference placeholder substitution; FakeRepo at the argv seam (hg stub only).",
         technique=TECH + "control-run argv differential at the subprocess seam + real git objects"),
     "C13": dict(
@@ -148,7 +151,7 @@ CHECKS.update({
         category="exploration",
         text=("One abstract configuration serialised into six sibling worlds (setup.cfg, pyproject.toml, bumpver.toml, "
               ".bumpver.toml, [pycalver] in setup.cfg and pycalver.toml; all boolean spellings, quoting styles, array styles); "
-              "parsed Config and the behaviour of the same history must agree across siblings."),
+              "parsed Config and the behaviour of the same history must agree across siblings. BADCONFIG: the same syntax slip (a file key without its `=`) must be treated alike in setup.cfg and TOML."),
         design_ref="DESIGN.md 6.18", note="Differential oracle: it detects disagreement between syntaxes, not a bug common to all readers.",
         technique=TECH + "sibling worlds differing only in config syntax replaying one history, differential oracle"),
     "C19": dict(
